@@ -249,9 +249,25 @@ A_HASROOT = ("hasroot",)
 class Guard:
     """Turns branch tests of one function into formulas over atoms and decides implications by truth table."""
 
-    def __init__(self, fi: FunctionInfo):
+    def __init__(self, fi: FunctionInfo, corpus: Corpus | None = None):
         self.fi = fi
         self.opaque: dict[tuple, ast.expr] = {}
+        self.corpus = corpus
+        self._supers: dict[str, set[str]] = {}
+
+    def supers(self, cls: str) -> set[str]:
+        """Proper superclasses of a docutils.nodes class, read from the (parsed, not imported) sibling source."""
+        if cls in self._supers:
+            return self._supers[cls]
+        out: set[str] = set()
+        self._supers[cls] = out
+        modname, _, cname = cls.rpartition(".")
+        m = self.corpus.sibling_module(modname) if self.corpus is not None and modname.startswith("docutils") else None
+        if m is not None and cname in m.classes:
+            for b in m.classes[cname].bases:
+                out.add(b)
+                out |= self.supers(b)
+        return out
 
     def build(self, e: ast.expr, depth: int = 0):
         fi = self.fi
@@ -360,6 +376,10 @@ class Guard:
             # a node has one class: document and section are exclusive
             if env.get(("inst", DOCUMENT)) and env.get(("inst", SECTION)):
                 continue
+            # an instance of a class is an instance of its superclasses
+            insts = [a[1] for a in atoms if a[0] == "inst"]
+            if any(env[("inst", c)] and not env[("inst", sup)] for c in insts for sup in insts if sup in self.supers(c)):
+                continue
             if self.ev(premise, env) and not self.ev(conclusion, env):
                 return env
         return None
@@ -406,6 +426,27 @@ def _renderer_funcs(corpus: Corpus):
     return base, base.func(f"{RENDERER}.render_heading"), base.func(f"{RENDERER}.{UPDATE}")
 
 
+def _helper_constructs(corpus: Corpus, base, call: ast.Call, full: str) -> bool:
+    """``call`` is ``self.<helper>(...)`` and every implementation of the helper returns a node it constructs as ``full``."""
+    f = call.func
+    if not (isinstance(f, ast.Attribute) and isinstance(f.value, ast.Name) and f.value.id == "self"):
+        return False
+    impls = corpus.method_impls(base.cls(RENDERER), f.attr)
+    if not impls:
+        return False
+    for impl in impls:
+        rets = [n for n in impl.local_nodes() if isinstance(n, ast.Return)]
+        if not rets:
+            return False
+        for r in rets:
+            v = r.value
+            if isinstance(v, ast.Name):
+                v = single_def(impl, v.id)
+            if not (isinstance(v, ast.Call) and resolves_to(v, impl, full)):
+                return False
+    return True
+
+
 def _in_render_scope(fi: FunctionInfo) -> bool:
     return any(m in fi.module.name + "." for m in RENDER_MODULE_MARKS)
 
@@ -432,7 +473,7 @@ def r1_context_guard(corpus: Corpus, rep: Report, tier: str):
     base, rh, upd = _renderer_funcs(corpus)
     rep.saw_function(rh.fq)
     cfg = get_cfg(rh)
-    g = Guard(rh)
+    g = Guard(rh, corpus)
     rcls = base.cls(RENDERER)
     for name in ("render_heading", UPDATE, "nested_render_text", "current_node_context", "setup_render"):
         impls = corpus.method_impls(rcls, name)
@@ -493,11 +534,8 @@ def r1_context_guard(corpus: Corpus, rep: Report, tier: str):
         )
 
     # converse: the rubric branch is only taken outside document/section
-    rub = [n for n in rh.local_nodes() if isinstance(n, ast.Call) and resolves_to(n, rh, RUBRIC)]
-    if not rub:
-        raise Unsupported("render_heading constructs no nodes.rubric (non-structural branch not found)")
-    for n in rub:
-        st = cfg.stmt_of(n)
+    rs = _rubric_site(corpus, base, rh)
+    for n, st in [(rs.rcall if rs.hcall is None else rs.hcall, rs.entry)]:
         k = f"{rh.fq}|rubric branch only outside document/section|{short(n, 50)}"
         prem = g.conj(cfg.guards(st))
         cex = g.implies(prem, NOT_STRUCT)
@@ -592,15 +630,81 @@ def _attach_events(st, var: str, fi: FunctionInfo) -> tuple[int, list[str]]:
     return n_att, unknown
 
 
-def _rubric_region(rh: FunctionInfo) -> list[ast.AST]:
-    """CFG statements from the (single) rubric construction of render_heading to the exit."""
-    cfg = get_cfg(rh)
-    rub = [n for n in rh.local_nodes() if isinstance(n, ast.Call) and resolves_to(n, rh, RUBRIC)]
-    if len(rub) != 1:
-        raise Unsupported(f"render_heading constructs nodes.rubric {len(rub)} times (expected one non-structural branch)")
-    region = [n for n in cfg.reachable_from(cfg.stmt_of(rub[0])) if isinstance(n, ast.AST)]
-    region.sort(key=lambda s: (s.lineno, s.col_offset))
-    return region
+class RubricSite:
+    """Where the non-structural rubric is built: in render_heading itself or in a helper method it calls."""
+
+    def __init__(self, corpus: Corpus, base, rh: FunctionInfo):
+        self.rh = rh
+        cfg = get_cfg(rh)
+        direct = [n for n in rh.local_nodes() if isinstance(n, ast.Call) and resolves_to(n, rh, RUBRIC)]
+        self.hcall: ast.Call | None = None
+        self.rh_var: str | None = None
+        if len(direct) > 1:
+            raise Unsupported(f"render_heading constructs nodes.rubric {len(direct)} times (expected one non-structural branch)")
+        if direct:
+            self.fi, self.rcall = rh, direct[0]
+        else:
+            cands = []
+            for c in rh.local_nodes():
+                if isinstance(c, ast.Call) and isinstance(c.func, ast.Attribute) and isinstance(c.func.value, ast.Name) and c.func.value.id == "self":
+                    impls = corpus.method_impls(base.cls(RENDERER), c.func.attr)
+                    if len(impls) == 1:
+                        rc = [n for n in impls[0].local_nodes() if isinstance(n, ast.Call) and resolves_to(n, impls[0], RUBRIC)]
+                        if len(rc) == 1:
+                            cands.append((c, impls[0], rc[0]))
+            if len(cands) != 1:
+                raise Unsupported(f"render_heading constructs no nodes.rubric itself and calls {len(cands)} helper(s) that do (non-structural branch not found)")
+            self.hcall, self.fi, self.rcall = cands[0]
+            if any(isinstance(a, ast.Starred) for a in self.hcall.args) or any(kw.arg is None for kw in self.hcall.keywords):
+                raise Unsupported("rubric helper called with */** arguments")
+        fcfg = get_cfg(self.fi)
+        self.rst = fcfg.stmt_of(self.rcall)
+        if isinstance(self.rst, ast.Return) and self.rst.value is self.rcall:
+            self.rvar = None  # returned at once: never attached inside the helper
+        elif isinstance(self.rst, ast.Assign) and len(self.rst.targets) == 1 and isinstance(self.rst.targets[0], ast.Name) and self.rst.value is self.rcall:
+            self.rvar = self.rst.targets[0].id
+            if len(name_assignments(self.fi, self.rvar)) != 1:
+                raise Unsupported(f"local `{self.rvar}` is bound more than once")
+        else:
+            raise Unsupported("the rubric is not bound to a local name")
+        self.entry = self.rst if self.hcall is None else cfg.stmt_of(self.hcall)
+        if self.hcall is not None:
+            rets = [n for n in self.fi.local_nodes() if isinstance(n, ast.Return) and n.value is not None]
+            returns_rubric = bool(rets) and all((isinstance(r.value, ast.Name) and r.value.id == self.rvar) or r.value is self.rcall for r in rets)
+            if rets and not returns_rubric:
+                raise Unsupported("rubric helper returns something other than the rubric")
+            if returns_rubric:
+                e = self.entry
+                if isinstance(e, ast.Assign) and len(e.targets) == 1 and isinstance(e.targets[0], ast.Name) and e.value is self.hcall and len(name_assignments(rh, e.targets[0].id)) == 1:
+                    self.rh_var = e.targets[0].id
+                elif not (isinstance(e, ast.Expr) and e.value is self.hcall):
+                    raise Unsupported("the rubric returned by the helper is not bound to a single-assignment local")
+
+    def rh_region(self) -> list[ast.AST]:
+        """CFG statements of render_heading from the start of the rubric path to the exit."""
+        region = [n for n in get_cfg(self.rh).reachable_from(self.entry) if isinstance(n, ast.AST)]
+        region.sort(key=lambda s: (s.lineno, s.col_offset))
+        return region
+
+    def helper_region(self) -> list[ast.AST]:
+        if self.hcall is None:
+            return []
+        region = [n for n in get_cfg(self.fi).reachable_from(self.rst) if isinstance(n, ast.AST)]
+        region.sort(key=lambda s: (s.lineno, s.col_offset))
+        return region
+
+    def argument_for(self, name: str) -> ast.expr | None:
+        """The expression render_heading passes for helper parameter ``name``."""
+        if self.hcall is None or name not in self.fi.params or name_assignments(self.fi, name):
+            return None
+        idx = self.fi.params.index(name) - (1 if self.fi.params and self.fi.params[0] == "self" else 0)
+        if 0 <= idx < len(self.hcall.args):
+            return self.hcall.args[idx]
+        return kwarg(self.hcall, name)
+
+
+def _rubric_site(corpus: Corpus, base, rh: FunctionInfo) -> RubricSite:
+    return corpus.cache("c05-rubric-site", lambda: RubricSite(corpus, base, rh))
 
 
 @rule("C05.R2")
@@ -609,18 +713,13 @@ def r2_rubric_path_purity(corpus: Corpus, rep: Report, tier: str):
     base, rh, upd = _renderer_funcs(corpus)
     cfg = get_cfg(rh)
     rcls = base.cls(RENDERER)
-    rub = [n for n in rh.local_nodes() if isinstance(n, ast.Call) and resolves_to(n, rh, RUBRIC)]
-    if len(rub) != 1:
-        raise Unsupported(f"render_heading constructs nodes.rubric {len(rub)} times (expected one non-structural branch)")
-    rcall = rub[0]
-    rst = cfg.stmt_of(rcall)
-    if not (isinstance(rst, ast.Assign) and len(rst.targets) == 1 and isinstance(rst.targets[0], ast.Name)):
-        raise Unsupported("the rubric is not bound to a local name")
-    rvar = rst.targets[0].id
-    if len(name_assignments(rh, rvar)) != 1:
-        raise Unsupported(f"local `{rvar}` is bound more than once")
-    region = _rubric_region(rh)
+    rs = _rubric_site(corpus, base, rh)
+    rcall, rst, rvar = rs.rcall, rs.rst, rs.rvar
+    rmod = rs.fi.module
+    region = rs.rh_region() + rs.helper_region()
     region_nodes = [n for st in region for n in own_nodes(st)]
+    if rs.hcall is not None:
+        rep.saw_function(rs.fi.fq)
 
     # (a) direct effects in the region
     k0 = f"{rh.fq}|rubric path"
@@ -643,7 +742,7 @@ def r2_rubric_path_purity(corpus: Corpus, rep: Report, tier: str):
         if not (isinstance(n, ast.Call) and isinstance(n.func, ast.Attribute) and isinstance(n.func.value, ast.Name) and n.func.value.id == "self"):
             continue
         for impl in corpus.method_impls(rcls, n.func.attr):
-            if impl.fq in seen:
+            if impl.fq in seen or (rs.hcall is not None and impl.fq == rs.fi.fq):
                 continue
             seen.add(impl.fq)
             rep.saw_function(impl.fq)
@@ -662,9 +761,13 @@ def r2_rubric_path_purity(corpus: Corpus, rep: Report, tier: str):
     ucalls = method_calls(rh.local_nodes(), UPDATE)
     lv = kwarg(rcall, "level")
     k = f"{rh.fq}|rubric level= is the heading level"
-    if len(ucalls) != 1 or len(ucalls[0].args) < 2:
+    if len(ucalls) != 1 or _update_args(ucalls[0])[1] is None:
         raise Unsupported("render_heading: the level argument of the level-state update was not found")
-    sec_level = ucalls[0].args[1]
+    sec_level = _update_args(ucalls[0])[1]
+    if isinstance(lv, ast.Name) and rs.hcall is not None:
+        lv = rs.argument_for(lv.id)
+        if lv is None:
+            raise Unsupported("level= of the rubric is not a parameter the helper receives from render_heading")
     if lv is None:
         rep.violation("C05.R2", k, base.site(rcall), "the rubric is built without level=: the nested heading does not record its level")
     elif unparse(lv) == unparse(sec_level) and (not isinstance(lv, ast.Name) or len(name_assignments(rh, lv.id)) == 1):
@@ -675,21 +778,30 @@ def r2_rubric_path_purity(corpus: Corpus, rep: Report, tier: str):
     # (d) attached exactly once on every path to the exit
     unknown: list[str] = []
 
-    def weight(st):
-        n, unk = _attach_events(st, rvar, rh)
-        unknown.extend(unk)
-        return n
+    def count_in(fi: FunctionInfo, start, var: str | None) -> set[int] | None:
+        if var is None:
+            return {0}
 
-    res = cfg.counts(rst, [EXIT], weight)
+        def weight(st):
+            n, unk = _attach_events(st, var, fi)
+            unknown.extend(unk)
+            return n
+
+        return get_cfg(fi).counts(start, [EXIT], weight).get(EXIT)
+
+    total = count_in(rs.fi, rst, rvar)
+    if rs.hcall is not None and total is not None:
+        outer = count_in(rh, rs.entry, rs.rh_var)
+        total = None if outer is None else {min(2, a + b) for a in total for b in outer}
     k = f"{rh.fq}|rubric attached exactly once"
     if unknown:
         rep.error("C05.R2", f"the rubric is attached to `{unknown[0]}`, which this rule cannot relate to current_node")
-    elif EXIT not in res:
+    elif total is None:
         rep.error("C05.R2", "no normal path from the rubric construction to the exit")
-    elif res[EXIT] == {1}:
-        rep.ok("C05.R2", k, base.site(rcall), "one attachment to current_node on every path")
+    elif total == {1}:
+        rep.ok("C05.R2", k, rmod.site(rcall), "one attachment to current_node on every path")
     else:
-        rep.violation("C05.R2", k, base.site(rcall), f"the rubric is attached {sorted(res[EXIT])} time(s) on the paths to the exit (2 = two or more): expected exactly once (nested heading lost or duplicated)")
+        rep.violation("C05.R2", k, rmod.site(rcall), f"the rubric is attached {sorted(total)} time(s) on the paths to the exit (2 = two or more): expected exactly once (nested heading lost or duplicated)")
     rep.expect_min("C05.R2", 6, "region purity, >=3 callees, level=, attached once")
 
 
@@ -748,20 +860,18 @@ def lin(e: ast.expr, level: str, par: str):
     return None
 
 
-def eval_skip_condition(test: ast.expr, d: int, level: str, par: str) -> bool:
-    """Truth of a branch test when level - parent_level == d (d >= 1). Unsupported outside and/or/not/linear compares."""
+def eval_level_condition(test: ast.expr, level_v: int, parent_v: int, level: str, par: str) -> bool:
+    """Truth of a branch test for concrete (level, parent level). Unsupported outside and/or/not/linear compares."""
     if isinstance(test, ast.UnaryOp) and isinstance(test.op, ast.Not):
-        return not eval_skip_condition(test.operand, d, level, par)
+        return not eval_level_condition(test.operand, level_v, parent_v, level, par)
     if isinstance(test, ast.BoolOp):
-        vals = [eval_skip_condition(v, d, level, par) for v in test.values]
+        vals = [eval_level_condition(v, level_v, parent_v, level, par) for v in test.values]
         return all(vals) if isinstance(test.op, ast.And) else any(vals)
     if isinstance(test, ast.Compare) and len(test.ops) == 1 and type(test.ops[0]) in REL_TXT:
         x, y = lin(test.left, level, par), lin(test.comparators[0], level, par)
         if x is not None and y is not None:
-            a, b, c = x[0] - y[0], x[1] - y[1], x[2] - y[2]
-            if a == -b and abs(a) <= 2 and abs(c) <= 6:
-                v = a * d + c  # a*level + b*parent + c with level = parent + d
-                return {ast.Lt: v < 0, ast.LtE: v <= 0, ast.Gt: v > 0, ast.GtE: v >= 0, ast.Eq: v == 0, ast.NotEq: v != 0}[type(test.ops[0])]
+            v = (x[0] - y[0]) * level_v + (x[1] - y[1]) * parent_v + (x[2] - y[2])
+            return {ast.Lt: v < 0, ast.LtE: v <= 0, ast.Gt: v > 0, ast.GtE: v >= 0, ast.Eq: v == 0, ast.NotEq: v != 0}[type(test.ops[0])]
     raise Unsupported(f"warning condition `{short(test, 60)}` is not a boolean combination of linear comparisons of level and parent level")
 
 
@@ -779,6 +889,220 @@ def _map_keys_iter(it: ast.expr) -> str | None:
     return None
 
 
+# -- level-map operations of the update: extraction and simulation over the key classes {<L, =L, >L} ------------
+
+
+def _is_tag_digit(e: ast.AST) -> bool:
+    return (
+        isinstance(e, ast.Call) and dotted(e.func) == "int" and len(e.args) == 1 and isinstance(e.args[0], ast.Subscript)
+        and is_attr(e.args[0].value, "tag") and isinstance(e.args[0].slice, ast.Constant) and e.args[0].slice.value == 1
+    )
+
+
+def _level_bound(rh: FunctionInfo, ucall: ast.Call) -> int | None:
+    """Static upper bound of a heading level: 6 without an offset, None (unbounded) when the offset is added."""
+    lvl = _update_args(ucall)[1]
+    ldef = single_def(rh, lvl.id) if isinstance(lvl, ast.Name) else lvl
+    if ldef is None:
+        raise Unsupported("heading level of render_heading is not a single-assignment local")
+    if any(is_self_attr(n, OFFSET) for n in ast.walk(ldef)):
+        return None
+    if _is_tag_digit(ldef):
+        return 6
+    raise Unsupported(f"cannot bound the heading level `{short(ldef, 40)}`")
+
+
+def _update_args(call: ast.Call) -> tuple[ast.expr | None, ast.expr | None]:
+    """(section argument, level argument) of a call of the level-state update (positional or keyword)."""
+    sec = call.args[0] if len(call.args) > 0 else None
+    lvl = call.args[1] if len(call.args) > 1 else None
+    for kw in call.keywords:
+        if kw.arg == "section":
+            sec = kw.value
+        elif kw.arg == "level":
+            lvl = kw.value
+    return sec, lvl
+
+
+def _range_bound(e: ast.expr, p_lvl: str) -> tuple[str, int]:
+    """('L', c) = level + c; ('C', c) = constant; ('M', c) = max(open levels) + c."""
+    x = lin(e, p_lvl, "\0")
+    if x is not None and x[1] == 0 and x[0] in (0, 1):
+        return ("L" if x[0] == 1 else "C", x[2])
+
+    def is_max(m):
+        return isinstance(m, ast.Call) and dotted(m.func) == "max" and len(m.args) == 1 and _map_keys_iter(m.args[0]) == "keys"
+
+    if is_max(e):
+        return ("M", 0)
+    if isinstance(e, ast.BinOp) and isinstance(e.op, (ast.Add, ast.Sub)) and isinstance(e.right, ast.Constant) and isinstance(e.right.value, int) and is_max(e.left):
+        return ("M", e.right.value if isinstance(e.op, ast.Add) else -e.right.value)
+    if isinstance(e, ast.BinOp) and isinstance(e.op, ast.Add) and isinstance(e.left, ast.Constant) and isinstance(e.left.value, int) and is_max(e.right):
+        return ("M", e.left.value)
+    raise Unsupported(f"range bound `{short(e, 40)}` is not level+c, a constant or max(open levels)+c")
+
+
+def _removal_of(n: ast.AST, key: str) -> str | None:
+    """'safe' / 'raises' if ``n`` removes map[key] (pop with default / del or pop without)."""
+    if isinstance(n, ast.Expr):
+        n = n.value
+    if isinstance(n, ast.Call) and isinstance(n.func, ast.Attribute) and n.func.attr == "pop" and is_attr(n.func.value, LEVEL_MAP) and n.args and isinstance(n.args[0], ast.Name) and n.args[0].id == key:
+        return "safe" if len(n.args) > 1 else "raises"
+    if isinstance(n, ast.Delete) and len(n.targets) == 1:
+        t = n.targets[0]
+        if isinstance(t, ast.Subscript) and is_attr(t.value, LEVEL_MAP) and isinstance(t.slice, ast.Name) and t.slice.id == key:
+            return "raises"
+    return None
+
+
+def _loop_op(st: ast.For, p_lvl: str):
+    """A ``for`` statement that removes keys from the level map -> (kind, payload, text)."""
+    if st.orelse or not isinstance(st.target, ast.Name) or len(st.body) != 1:
+        raise Unsupported(f"removal loop `{short(st, 50)}` has an else part / several statements")
+    kv = st.target.id
+    inner = st.body[0]
+    test = None
+    if isinstance(inner, ast.If) and not inner.orelse and len(inner.body) == 1:
+        test, inner = inner.test, inner.body[0]
+    how = _removal_of(inner, kv)
+    if how is None:
+        raise Unsupported(f"loop body `{short(inner, 50)}` is not a removal of map[{kv}]")
+    member = test is not None and isinstance(test, ast.Compare) and len(test.ops) == 1 and isinstance(test.ops[0], ast.In) and isinstance(test.left, ast.Name) and test.left.id == kv and is_attr(test.comparators[0], LEVEL_MAP)
+    it = st.iter
+    if isinstance(it, ast.Call) and dotted(it.func) == "range" and not it.keywords:
+        if len(it.args) == 3 and not (isinstance(it.args[2], ast.Constant) and it.args[2].value == 1):
+            raise Unsupported("range with a step")
+        if test is not None and not member:
+            raise Unsupported(f"guard `{short(test, 40)}` inside a range removal loop")
+        if how == "raises" and not member:
+            raise Unsupported("del / pop without default over a range of levels raises KeyError for a level that is not open")
+        lo = _range_bound(it.args[0], p_lvl) if len(it.args) >= 2 else ("C", 0)
+        hi = _range_bound(it.args[1] if len(it.args) >= 2 else it.args[0], p_lvl)
+        return ("remove_range", (lo, hi), f"remove keys in range({unparse(it.args[0]) if len(it.args) >= 2 else 0}, {unparse(it.args[1] if len(it.args) >= 2 else it.args[0])})")
+    # a materialised copy of the keys, removal under a comparison with the level
+    rel = None
+    if isinstance(it, ast.Call) and dotted(it.func) in ("list", "tuple", "sorted", "set") and len(it.args) == 1 and _map_keys_iter(it.args[0]) == "keys":
+        if test is None or member:
+            raise Unsupported("loop removes every open level")
+        rel = key_rel(test, kv, p_lvl)
+    elif isinstance(it, ast.ListComp) and len(it.generators) == 1 and _map_keys_iter(it.generators[0].iter) == "keys" and isinstance(it.generators[0].target, ast.Name) and isinstance(it.elt, ast.Name) and it.elt.id == it.generators[0].target.id and len(it.generators[0].ifs) == 1 and (test is None or member):
+        rel = key_rel(it.generators[0].ifs[0], it.elt.id, p_lvl)
+    else:
+        raise Unsupported(f"removal loop iterates `{short(it, 40)}` (not a range and not a copy of the map's keys)")
+    if rel is None:
+        raise Unsupported("removal condition is not one comparison of the open level with the new level")
+    return ("remove_if", rel, f"remove keys {REL_TXT[rel]} level")
+
+
+def _map_ops(upd: FunctionInfo, cfg, p_sec: str, p_lvl: str) -> list[tuple[str, object, ast.AST, str]]:
+    body = upd.node.body
+    ops: list[tuple[str, object, ast.AST, str]] = []
+    done: set[int] = set()
+    for n in writes_attr(upd.local_nodes(), LEVEL_MAP):
+        top = n
+        while parent(top) is not upd.node:
+            top = parent(top)
+            if top is None:
+                raise Unsupported("level map operation outside the function body")
+        if id(top) in done:
+            continue
+        if isinstance(top, ast.For):
+            done.add(id(top))
+            kind, payload, text = _loop_op(top, p_lvl)
+            ops.append((kind, payload, top, text))
+            continue
+        if top is not cfg.stmt_of(n) or isinstance(top, (ast.If, ast.While, ast.Try, ast.With)):
+            raise Unsupported(f"level map operation `{short(n, 50)}` is conditional: straight-line simulation does not apply")
+        if isinstance(n, ast.Assign) and len(n.targets) == 1:
+            t = n.targets[0]
+            if isinstance(t, ast.Subscript) and is_attr(t.value, LEVEL_MAP):
+                if isinstance(t.slice, ast.Name) and t.slice.id == p_lvl and isinstance(n.value, ast.Name) and n.value.id == p_sec:
+                    ops.append(("store", None, n, "map[level]=section"))
+                    continue
+                raise Unsupported(f"level map store `{short(n, 50)}` is not map[level] = section")
+            if is_attr(t, LEVEL_MAP) and isinstance(n.value, ast.DictComp) and len(n.value.generators) == 1:
+                gen = n.value.generators[0]
+                if (
+                    _map_keys_iter(gen.iter) == "items"
+                    and isinstance(gen.target, ast.Tuple)
+                    and len(gen.target.elts) == 2
+                    and all(isinstance(e, ast.Name) for e in gen.target.elts)
+                    and unparse(n.value.key) == gen.target.elts[0].id
+                    and unparse(n.value.value) == gen.target.elts[1].id
+                    and len(gen.ifs) == 1
+                ):
+                    r = key_rel(gen.ifs[0], gen.target.elts[0].id, p_lvl)
+                    if r is not None:
+                        ops.append(("filter", r, n, f"keep keys {REL_TXT[r]} level"))
+                        continue
+        raise Unsupported(f"level map operation `{short(n, 60)}` is outside the understood subset (map[level]=section, filtering dict comprehension, removal loop)")
+    ops.sort(key=lambda o: body.index(o[2] if o[2] in body else cfg.stmt_of(o[2])))
+    return ops
+
+
+NEGATE = {ast.Lt: ast.GtE, ast.GtE: ast.Lt, ast.Gt: ast.LtE, ast.LtE: ast.Gt, ast.Eq: ast.NotEq, ast.NotEq: ast.Eq}
+
+
+def _simulate(ops, level_bound) -> tuple[dict[str, str], list[str]]:
+    """Abstract state of the three key classes after the operations: old / new / dropped / partly."""
+    state = {"lt": "old", "eq": "old", "gt": "old"}
+    reasons: list[str] = []
+    stored = False
+
+    def drop(c: str, fully: bool) -> None:
+        if state[c] == "dropped":
+            return
+        state[c] = "dropped" if fully else "partly"
+
+    for kind, payload, _n, _text in ops:
+        if kind == "store":
+            state["eq"] = "new"
+            stored = True
+        elif kind in ("filter", "remove_if"):
+            rel = payload if kind == "filter" else NEGATE[payload]
+            for c, kept in zip(("lt", "eq", "gt"), KEEPS[rel]):
+                if not kept:
+                    drop(c, True)
+        else:
+            (lk, lc), (hk, hc) = payload
+            if lk == "M":
+                raise Unsupported("removal range starts at max(open levels)")
+            # does the range reach above every open level?
+            if hk == "M":
+                top_covered = hc >= 1
+                if not top_covered:
+                    reasons.append(f"the range ends at max(open levels){hc:+d} (exclusive): the deepest open level is never removed")
+            else:
+                b = level_bound()
+                if b is None:
+                    top_covered = False
+                    reasons.append(
+                        (f"the range ends at the constant {hc}" if hk == "C" else f"the range ends at level{hc:+d}")
+                        + ": the heading level is the tag digit plus the heading offset of an include, so open levels above that bound exist and are never removed"
+                    )
+                else:
+                    top_covered = (hk == "C" and hc > b) or (hk == "L" and hc >= b)
+                    if not top_covered:
+                        reasons.append(f"the range does not reach level {b}")
+            if lk == "C":
+                reasons.append(f"the range starts at the constant {lc}, not at level+1: for a heading of level >= {lc} its own entry and ancestors are removed, for a lower one the levels below {lc} stay open")
+                drop("lt", False)
+                drop("eq", False)
+                drop("gt", False)
+                continue
+            # lk == "L"
+            if lc <= 0:
+                certain = (hk == "L" and hc >= 1) or (hk == "M" and hc >= 1 and stored)
+                drop("eq", certain)
+                reasons.append(f"the range starts at level{lc:+d}: the entry of the new level itself is removed")
+                if lc < 0:
+                    drop("lt", False)
+            if lc >= 2:
+                reasons.append(f"the range starts at level+{lc}: levels level+1..level+{lc - 1} stay open")
+            drop("gt", lc <= 1 and top_covered)
+    return state, reasons
+
+
 @rule("C05.R3")
 def r3_ordering_roles(corpus: Corpus, rep: Report, tier: str):
     rep.rule("C05.R3", "level-state update: parent = max over open levels strictly below; attach once to it; map ends as (ancestors, own=new, deeper dropped); warning iff skip >= 2, at most once; map rooted at {0: document}")
@@ -791,15 +1115,15 @@ def r3_ordering_roles(corpus: Corpus, rep: Report, tier: str):
     p_sec, p_lvl = params[1], params[2]
     # the roles of the two parameters are confirmed at the call site in render_heading
     ucalls = method_calls(rh.local_nodes(), UPDATE)
-    if len(ucalls) != 1 or len(ucalls[0].args) != 2 or ucalls[0].keywords:
-        raise Unsupported("render_heading does not call the level-state update as (section, level)")
-    a_sec, a_lvl = ucalls[0].args
-    sec_def = single_def(rh, a_sec.id) if isinstance(a_sec, ast.Name) else None
+    if len(ucalls) != 1 or None in _update_args(ucalls[0]) or any(isinstance(a, ast.Starred) for a in ucalls[0].args):
+        raise Unsupported("render_heading does not call the level-state update once with (section, level)")
+    a_sec, a_lvl = _update_args(ucalls[0])
+    sec_def = single_def(rh, a_sec.id) if isinstance(a_sec, ast.Name) else a_sec
     k = f"{rh.fq}|{UPDATE}(section, level) argument roles"
-    if sec_def is not None and isinstance(sec_def, ast.Call) and resolves_to(sec_def, rh, SECTION):
-        rep.ok("C05.R3", k, base.site(ucalls[0]), f"first argument is the constructed section, second `{unparse(a_lvl)}`")
+    if isinstance(sec_def, ast.Call) and (resolves_to(sec_def, rh, SECTION) or _helper_constructs(corpus, base, sec_def, SECTION)):
+        rep.ok("C05.R3", k, base.site(ucalls[0]), f"section argument is the constructed section, level argument `{unparse(a_lvl)}`")
     else:
-        raise Unsupported("first argument of the level-state update is not the section constructed in render_heading")
+        raise Unsupported("section argument of the level-state update is not traced to the nodes.section constructed for this heading")
     for p in (p_sec, p_lvl):
         if name_assignments(upd, p):
             raise Unsupported(f"parameter `{p}` of {UPDATE} is rebound: its role is no longer fixed")
@@ -873,58 +1197,24 @@ def r3_ordering_roles(corpus: Corpus, rep: Report, tier: str):
             rep.ok("C05.R3", k, base.site(attaches[0][0]), f"{LEVEL_MAP}[{par}].append({p_sec}) on every path")
 
     # (c) abstract simulation of the map operations over key classes (lt, eq, gt)
-    ops: list[tuple[str, object, ast.AST]] = []
-    body = upd.node.body
-    for n in writes_attr(upd.local_nodes(), LEVEL_MAP):
-        st = cfg.stmt_of(n)
-        if st not in body:
-            raise Unsupported(f"level map operation `{short(n, 50)}` is conditional: straight-line simulation does not apply")
-        if isinstance(n, ast.Assign) and len(n.targets) == 1:
-            t = n.targets[0]
-            if isinstance(t, ast.Subscript) and is_attr(t.value, LEVEL_MAP):
-                if isinstance(t.slice, ast.Name) and t.slice.id == p_lvl and isinstance(n.value, ast.Name) and n.value.id == p_sec:
-                    ops.append(("store", None, n))
-                    continue
-                raise Unsupported(f"level map store `{short(n, 50)}` is not map[level] = section")
-            if is_attr(t, LEVEL_MAP) and isinstance(n.value, ast.DictComp) and len(n.value.generators) == 1:
-                gen = n.value.generators[0]
-                if (
-                    _map_keys_iter(gen.iter) == "items"
-                    and isinstance(gen.target, ast.Tuple)
-                    and len(gen.target.elts) == 2
-                    and all(isinstance(e, ast.Name) for e in gen.target.elts)
-                    and unparse(n.value.key) == gen.target.elts[0].id
-                    and unparse(n.value.value) == gen.target.elts[1].id
-                    and len(gen.ifs) == 1
-                ):
-                    r = key_rel(gen.ifs[0], gen.target.elts[0].id, p_lvl)
-                    if r is not None:
-                        ops.append(("filter", r, n))
-                        continue
-        raise Unsupported(f"level map operation `{short(n, 60)}` is outside the understood subset (store map[level]=section, filtering dict comprehension)")
-    ops.sort(key=lambda o: body.index(cfg.stmt_of(o[2])))
-    state = {"lt": "old", "eq": "old", "gt": "old"}
-    for kind, r, n in ops:
-        if kind == "store":
-            state["eq"] = "new"
-        else:
-            keep = dict(zip(("lt", "eq", "gt"), KEEPS[r]))
-            for c in state:
-                if not keep[c]:
-                    state[c] = "dropped"
+    ops = _map_ops(upd, cfg, p_sec, p_lvl)
+    state, reasons = _simulate(ops, lambda: _level_bound(rh, ucalls[0]))
     k = f"{upd.fq}|level map after the update"
     site = base.site(ops[-1][2]) if ops else upd.site()
     problems = []
     if state["lt"] != "old":
-        problems.append("the open sections of lower level (the ancestors, incl. the document) are dropped: the next heading has no parent")
+        problems.append("open sections of lower level (the ancestors, incl. the document) are dropped: a following heading has no / the wrong parent")
     if state["eq"] != "new":
         problems.append(f"the new section is not the open section of its own level afterwards (entry is {state['eq']}): a following deeper heading attaches to a stale/grand-parent section")
     if state["gt"] != "dropped":
-        problems.append("sections deeper than the new level stay open: a later heading can become the child of a section that was closed by this heading")
+        problems.append(
+            ("some sections" if state["gt"] == "partly" else "sections")
+            + " deeper than the new level stay open: a later heading can become the child of a section that was closed by this heading (and its non-consecutive warning is lost)"
+        )
     if problems:
-        rep.violation("C05.R3", k, site, "; ".join(problems))
+        rep.violation("C05.R3", k, site, "; ".join(problems) + ("  [" + "; ".join(reasons) + "]" if reasons else ""))
     else:
-        rep.ok("C05.R3", k, site, " then ".join("map[level]=section" if o[0] == "store" else f"keep key {REL_TXT[o[1]]} level" for o in ops))
+        rep.ok("C05.R3", k, site, " then ".join(o[3] for o in ops))
 
     # (d) the non-consecutive warning: exactly when level - parent >= 2, at most once per path, only here
     def names_member(n: ast.AST) -> bool:
@@ -946,45 +1236,53 @@ def r3_ordering_roles(corpus: Corpus, rep: Report, tier: str):
             rep.violation("C05.R3", f"{upd.fq}|non-consecutive warning at most once", base.site(wcalls[0]), "some path emits the non-consecutive-heading warning twice")
         else:
             rep.ok("C05.R3", f"{upd.fq}|non-consecutive warning at most once", base.site(wcalls[0]))
-        if len(wcalls) != 1:
-            raise Unsupported("several non-consecutive warning sites: condition extraction expects one")
-        w = cfg.stmt_of(wcalls[0])
-        conds: list[tuple[ast.If, bool]] = []
-        node, p = w, parent(w)
-        while p is not upd.node:
-            if isinstance(p, ast.If):
-                conds.append((p, node in p.body))
-            else:
-                raise Unsupported(f"the warning is nested in a {type(p).__name__}: condition not extracted")
-            node, p = p, parent(p)
-        if not conds:
-            rep.violation("C05.R3", k, base.site(w), "the non-consecutive-heading warning is unconditional: consecutive headings warn too")
+        sites: list[tuple[ast.stmt, list[tuple[ast.If, bool]]]] = []
+        for wc in wcalls:
+            w = cfg.stmt_of(wc)
+            conds: list[tuple[ast.If, bool]] = []
+            node, p = w, parent(w)
+            while p is not upd.node:
+                if isinstance(p, ast.If):
+                    conds.append((p, node in p.body))
+                else:
+                    raise Unsupported(f"the warning is nested in a {type(p).__name__}: condition not extracted")
+                node, p = p, parent(p)
+            sites.append((w, conds))
+        uncond = [w for w, conds in sites if not conds]
+        if uncond:
+            rep.violation("C05.R3", k, base.site(uncond[0]), "the non-consecutive-heading warning is unconditional: consecutive headings warn too")
         else:
-            wrong_edges = {("F" if pol else "T", i) for i, pol in conds}
-            if cfg.paths_avoiding(ENTRY, EXIT, lambda n: n is w or n in wrong_edges):
-                raise Unsupported("some path reaches the exit without passing the warning's branch decision: the warning condition is not the conjunction of its enclosing tests")
-            truth = {}
-            for d in range(1, 13):
-                truth[d] = all(eval_skip_condition(i.test, d, p_lvl, par) == pol for i, pol in conds)
-            bad_d = [d for d in truth if truth[d] != (d >= 2)]
-            if bad_d:
-                d = bad_d[0]
+            for w, conds in sites:
+                wrong_edges = {("F" if pol else "T", i) for i, pol in conds}
+                if cfg.paths_avoiding(ENTRY, EXIT, lambda n: n is w or n in wrong_edges):
+                    raise Unsupported("some path reaches the exit without passing the warning's branch decision: the warning condition is not the conjunction of its enclosing tests")
+            # evaluate the branch tests on the grid parent level 0..8 x skip 1..12 (level = parent + skip)
+            bad = None
+            for pv in range(0, 9):
+                for d in range(1, 13):
+                    emitted = sum(all(eval_level_condition(i.test, pv + d, pv, p_lvl, par) == pol for i, pol in conds) for _w, conds in sites)
+                    if (emitted >= 1) != (d >= 2) and bad is None:
+                        bad = (pv, d, emitted)
+            cond_txt = " | ".join(" and ".join(("" if pol else "not ") + short(i.test, 70) for i, pol in reversed(conds)) for _w, conds in sites)
+            outer = sites[0][1][-1][0]
+            if bad:
+                pv, d, emitted = bad
                 rep.violation(
                     "C05.R3",
                     k,
-                    base.site(conds[0][0]),
-                    f"with the parent at level p and the heading at level p+{d} the warning is {'emitted' if truth[d] else 'not emitted'}; "
-                    f"required: exactly when the heading skips at least one level (condition: `{' and '.join(('' if pol else 'not ') + short(i.test, 70) for i, pol in conds)}`)",
+                    base.site(outer),
+                    f"with the parent at level {pv} and the heading at level {pv + d} the warning is {'emitted' if emitted else 'not emitted'}; "
+                    f"required: exactly when the heading skips at least one level (condition: `{cond_txt}`)",
                 )
             else:
-                rep.ok("C05.R3", k, base.site(conds[0][0]), "true for every skip of 2..12 levels, false for 1")
+                rep.ok("C05.R3", k, base.site(outer), "emitted for every skip of 2..12 levels above a parent at level 0..8, never for a consecutive level")
             # nothing but the message and the warning inside the branch
-            inner = conds[0][0]
-            for st in ast.walk(inner):
-                if isinstance(st, ast.stmt) and st is not inner and not isinstance(st, ast.If):
-                    plain = (isinstance(st, ast.Assign) and all(isinstance(t, ast.Name) for t in st.targets)) or (isinstance(st, ast.Expr) and st.value in wcalls)
-                    if not plain and not isinstance(st, (ast.Return, ast.Raise)):
-                        raise Unsupported(f"statement `{short(st, 50)}` inside the warning branch is not a local assignment or the warning")
+            for _w, conds in sites:
+                for st in ast.walk(conds[-1][0]):
+                    if isinstance(st, ast.stmt) and not isinstance(st, ast.If):
+                        plain = (isinstance(st, ast.Assign) and all(isinstance(t, ast.Name) for t in st.targets)) or (isinstance(st, ast.Expr) and st.value in wcalls)
+                        if not plain and not isinstance(st, (ast.Return, ast.Raise)):
+                            raise Unsupported(f"statement `{short(st, 50)}` inside the warning branch is not a local assignment or the warning")
 
     # (e) the map starts as {0: document}; closed list of writers
     sr = base.func(f"{RENDERER}.setup_render")
@@ -1007,7 +1305,7 @@ def r3_ordering_roles(corpus: Corpus, rep: Report, tier: str):
             rep.ok("C05.R3", k, fi.module.site(ws[0]), "initialisation / the level-state update")
         elif fi.is_generator() and fi.parent_func is not None and fi.parent_func.name == "nested_render_text":
             rep.ok("C05.R3", k, fi.module.site(ws[0]), "restore after a nested render (judged by R4)")
-        elif fi.fq == rh.fq and all(any(w is x for st in _rubric_region(rh) for x in own_nodes(st)) for w in ws):
+        elif fi.fq == rh.fq and all(any(w is x for st in _rubric_site(corpus, base, rh).rh_region() for x in own_nodes(st)) for w in ws):
             pass  # on the rubric path: a violation reported by R2
         else:
             rep.error("C05.R3", f"{fi.fq} writes the level map ({fi.module.site(ws[0])}): writer outside the closed list is not understood")
@@ -1130,6 +1428,9 @@ def r4_save_restore(corpus: Corpus, rep: Report, tier: str):
             if c:
                 writes_pre.setdefault(c, []).append(s)
                 continue
+        if isinstance(s, ast.AugAssign) and _cell_of(s.target):
+            writes_pre.setdefault(_cell_of(s.target), []).append(s)
+            continue
         for n in own_nodes(s):
             if isinstance(n, ast.Call) and isinstance(n.func, ast.Attribute) and n.func.attr in MUTATORS and (_cell_of(n.func.value) or is_attr(n.func.value, "md_env")):
                 raise Unsupported(f"`{short(n, 50)}` before the yield mutates nested-render state in an idiom this rule does not know")
@@ -1154,6 +1455,15 @@ def r4_save_restore(corpus: Corpus, rep: Report, tier: str):
             continue
         sv = saves.get(cell, [])
         rs = restores.get(cell, [])
+        # inverse update: `cell += x` before the yield, `cell -= x` after it (same x, same guard)
+        pre_aug = [w for w in writes_pre.get(cell, []) if isinstance(w, ast.AugAssign)]
+        if pre_aug:
+            inv = [q for q in post if isinstance(q, ast.AugAssign) and _cell_of(q.target) == cell]
+            if len(pre_aug) == len(writes_pre[cell]) == 1 and isinstance(pre_aug[0].op, ast.Add) and len(inv) == 1 and isinstance(inv[0].op, ast.Sub) and unparse(inv[0].value) == unparse(pre_aug[0].value) and _guard_set(cfg, inv[0]) == _guard_set(cfg, pre_aug[0]) and not rs:
+                rep.ok("C05.R4", k, base.site(inv[0]), f"`+= {unparse(pre_aug[0].value)}` before the nested render, `-= {unparse(inv[0].value)}` after it")
+                continue
+            if not sv:
+                raise Unsupported(f"{CELL_TXT[cell]} is updated in place before the yield without a saved copy or an inverse update after it")
         if not sv:
             rep.violation("C05.R4", k, site, f"{CELL_TXT[cell]} is not saved before the nested render")
             continue
@@ -1258,17 +1568,13 @@ def r4_save_restore(corpus: Corpus, rep: Report, tier: str):
 
     # level derivation: tag digit + offset
     ucalls = method_calls(rh.local_nodes(), UPDATE)
-    lvl = ucalls[0].args[1] if ucalls and len(ucalls[0].args) > 1 else None
+    lvl = _update_args(ucalls[0])[1] if ucalls else None
     ldef = single_def(rh, lvl.id) if isinstance(lvl, ast.Name) else lvl
     k = f"{rh.fq}|level = tag digit + heading offset"
     if ldef is None:
         raise Unsupported("the heading level of render_heading is not a single-assignment local")
 
-    def is_tag_digit(e):
-        return (
-            isinstance(e, ast.Call) and dotted(e.func) == "int" and len(e.args) == 1 and isinstance(e.args[0], ast.Subscript)
-            and is_attr(e.args[0].value, "tag") and isinstance(e.args[0].slice, ast.Constant) and e.args[0].slice.value == 1
-        )
+    is_tag_digit = _is_tag_digit
 
     if isinstance(ldef, ast.BinOp) and ((is_tag_digit(ldef.left) and is_self_attr(ldef.right, OFFSET)) or (is_tag_digit(ldef.right) and is_self_attr(ldef.left, OFFSET))):
         if isinstance(ldef.op, ast.Add):
@@ -1412,6 +1718,16 @@ def mutants(corpus: Corpus):
         if strict:
             add("c05-prune-drops-own-level", "C05.R3", base, pf, f"{l} {strict} {r}", expect="level map after the update")
         add("c05-prune-removed", "C05.R3", base, prune, "pass", expect="level map after the update")
+    if prune is not None:
+        # class: pruning by enumerating a key range instead of filtering on the ordering
+        ind = " " * prune.col_offset
+        lv_ = upd.params[2]
+        for mid, lo, hi in (
+            ("c05-prune-range-stops-at-h6", f"{lv_} + 1", "7"),
+            ("c05-prune-range-excludes-deepest", f"{lv_} + 1", f"max(self.{LEVEL_MAP})"),
+            ("c05-prune-range-includes-own-level", lv_, f"max(self.{LEVEL_MAP}) + 1"),
+        ):
+            add(mid, "C05.R3", base, prune, f"for open_level in range({lo}, {hi}):\n{ind}    self.{LEVEL_MAP}.pop(open_level, None)", expect="level map after the update")
     store = find_node(upd, lambda n: isinstance(n, ast.Assign) and isinstance(n.targets[0], ast.Subscript) and is_self_attr(n.targets[0].value, LEVEL_MAP))
     add("c05-own-level-not-recorded", "C05.R3", base, store, "pass", expect="level map after the update")
     att = find_node(upd, lambda n: isinstance(n, ast.Call) and isinstance(n.func, ast.Attribute) and n.func.attr == "append" and n.args and isinstance(n.args[0], ast.Name) and n.args[0].id == upd.params[1])
